@@ -168,7 +168,7 @@ Qed.
 
 Lemma BDM_slash cfg s r s1 : slash cfg s r = Ok s1 -> BDM cfg s -> BDM cfg s1.
 Proof.
-  intros H HB. apply slash_core in H.
+  intros H HB. apply slash_core_fields in H.
   destruct H as (k & b & amt & Hb & -> & Hamt & Hbal & Ebk & Esu & Ei & Ep).
   pose proof HB as (Hwb & _ & (Hnn & Hsup) & _).
   pose proof (slashed_binding_fields cfg s k b) as (Fd & _ & _ & _ & Fa & _).
@@ -336,7 +336,7 @@ Proof.
   intros HB.
   destruct (core_expire_req cfg s r) as [Ec|(q & rc & _ & _ & _ & Ec)];
     (eapply BDM_core; [exact Ec|]); [assumption|].
-  unfold expire_settle. destruct (c_super rc); [assumption|].
+  unfold expire_money. destruct (c_super rc); [assumption|].
   assert (Hsa : BDM cfg (match slash cfg s r with Ok x => x | _ => s end)).
   { destruct (slash cfg s r) eqn:Es; try assumption. eapply BDM_slash; eauto. }
   destruct (refund_fee _ r (c_cons rc) (r_fee q)) eqn:Er; [|assumption].
